@@ -70,6 +70,8 @@ pub struct Cfg {
     /// a thread preempted inside such a window is held back for 0..=hold_max further quanta
     /// (drawn) while other threads can run: what the others do meanwhile lands inside the window
     pub hold_max: u32,
+    /// a thread preempted inside a window after a marker is held back 0..=window_hold_max quanta
+    pub window_hold_max: u32,
     /// draw the uniform scheduling mode (a thread choice at every scheduling point) in half of
     /// the runs instead of one in six
     pub prefer_uniform: bool,
@@ -95,6 +97,7 @@ impl Cfg {
             atomic_extra_steps: 6,
             atomic_extra_den: 3,
             hold_max: 0,
+            window_hold_max: 0,
             prefer_uniform: false,
         }
     }
@@ -1546,6 +1549,10 @@ impl<'a> Tracer<'a> {
                 self.th[t].st = St::User;
                 if after_atomic && cfg.hold_max > 0 {
                     self.th[t].hold = self.dec.choose(K::Sched, cfg.hold_max + 1);
+                }
+                if hint && cfg.window_hold_max > 0 && self.th[t].hold == 0 {
+                    // frozen in the middle of its window while the others move on
+                    self.th[t].hold = self.dec.choose(K::Sched, cfg.window_hold_max + 1);
                 }
                 if hint && t == 0 {
                     self.preempt_main_window += 1;
